@@ -177,7 +177,11 @@ func consistentWithDraw(elig []hostW, u url.URL, r float64) bool {
 			continue
 		}
 		if r*T == 0 {
-			return true // placed first
+			// T == 0: the first eligible entry visited is taken; r == 0 < T: the first one with weight
+			return T == 0 || e.w > 0
+		}
+		if e.w == 0 {
+			continue // passed over while the eligible total is positive
 		}
 		var others []float64
 		for j, o := range elig {
@@ -560,11 +564,43 @@ func runAPI(cfg Config, r *hx.Result) {
 // runFloatEdge: a direct-oracle-only probe of what the exact-arithmetic model leaves out. With
 // weights that are not exactly representable, the total computed in the first pass can exceed what
 // the second pass subtracts; at the largest possible draw (r = 1-2^-53) randomWeight then stays
-// positive after the last eligible host and nil is returned although hosts are eligible.
+// positive after the last eligible host. The code used to return nil there although hosts were
+// eligible (witnesses below); it now falls back to the last eligible host visited. The probe checks
+// the witnesses and seeded decimal weight lists at the largest draws: never nil, always an announced
+// host, never a zero-weight host while another has weight.
 // Not sent to the model (float rounding is unmodelled); counted under "unmodelled".
 func runFloatEdge(cfg Config, r *hx.Result) {
+	top := (int64(1)<<53 - 1) << 10
 	for _, ws := range [][]string{{"0.2", "0.4", "0.3", "0.1"}, {"0.3", "2.1", "0.9", "0.7", "1.1", "3.3"}} {
-		floatEdgeCase(r, ws, (int64(1)<<53-1)<<10, 3000)
+		floatEdgeCase(r, ws, top, 3000)
+	}
+	rng := hx.Rng(cfg.Seed, "c19-float")
+	n, trials := 60, 200
+	if cfg.Tier == "thorough" {
+		n, trials = 600, 400
+	}
+	for i := 0; i < n; i++ {
+		var ws []string
+		for k := 2 + rng.Intn(6); k > 0; k-- {
+			switch rng.Intn(6) {
+			case 0:
+				ws = append(ws, "0")
+			case 1:
+				ws = append(ws, strconv.FormatFloat(float64(1+rng.Intn(99))/7, 'g', -1, 64))
+			case 2:
+				ws = append(ws, strconv.FormatFloat(rng.Float64()*10, 'g', -1, 64))
+			default:
+				ws = append(ws, strconv.FormatFloat(float64(1+rng.Intn(99))/10, 'g', -1, 64))
+			}
+		}
+		v := top
+		switch rng.Intn(4) {
+		case 0:
+			v = (int64(1)<<53 - 1 - int64(rng.Intn(4))) << 10
+		case 1:
+			v = top + int64(rng.Intn(512)) // still rounds to 1-2^-53 (larger values round to 1.0, which Float64 resamples)
+		}
+		floatEdgeCase(r, ws, v, trials)
 	}
 }
 
@@ -582,15 +618,23 @@ func floatEdgeCase(r *hx.Result, ws []string, int63 int64, trials int) {
 		r.OracleFail(hx.Case{Sig: "C19 snapshot differs from the fold of the event history (ann event)", Op: op, Impl: canonContents(rec), Expected: string(data)})
 		return
 	}
+	anyPositive := false
+	for _, w := range rec["/n1"] {
+		if w > 0 {
+			anyPositive = true
+		}
+	}
 	restore := d2.VerifSetRng(constSource{int63})
 	defer restore()
-	nils, foreign := 0, 0
+	nils, foreign, zero := 0, 0, 0
 	for i := 0; i < trials; i++ {
 		got := h.ChooseHost(nil)
 		if got == nil {
 			nils++
-		} else if _, ok := rec["/n1"][*got]; !ok {
+		} else if w, ok := rec["/n1"][*got]; !ok {
 			foreign++
+		} else if w == 0 && anyPositive {
+			zero++
 		}
 	}
 	r.OracleCases++
@@ -599,9 +643,12 @@ func floatEdgeCase(r *hx.Result, ws []string, int63 int64, trials int) {
 	if foreign > 0 {
 		r.OracleFail(hx.Case{Sig: "C19 returned host is not announced", Op: op, Impl: fmt.Sprint(foreign, " results"), Expected: "an announced host"})
 	}
+	if zero > 0 {
+		r.OracleFail(hx.Case{Sig: "C19 zero-weight host returned while a positive-weight host is eligible", Op: op, Impl: fmt.Sprint(zero, " results"), Expected: "a host with positive weight"})
+	}
 	if nils > 0 {
-		r.OracleFail(hx.Case{Sig: "C19 no host returned although an eligible host is announced (float rounding, draw r=1-2^-53)", Op: op,
+		r.OracleFail(hx.Case{Sig: "C19 no host returned although an eligible host is announced (float rounding)", Op: op,
 			Impl:     fmt.Sprintf("nil in %d of %d calls (depends on the map iteration order of the two passes)", nils, trials),
-			Expected: "one of the " + strconv.Itoa(len(ws)) + " announced hosts, all of positive weight"})
+			Expected: "one of the " + strconv.Itoa(len(ws)) + " announced hosts"})
 	}
 }
